@@ -171,7 +171,9 @@ class Actor(object):
                 flags = FLAGS[(len(m.uids[t]['sigs']) + 2) % len(FLAGS)]
                 hashes = ['SHA512']
                 created = m.tick(same=(op == 'same_second_recert'))
-                u |= k.certify(u, SignatureType.Positive_Cert, usage={getattr(KeyFlags, f) for f in flags}, hashes=[HashAlgorithm.SHA512], primary=True, created=created)
+                # a self-certification of any of the four levels is the identity's self-signature
+                level = [SignatureType.Positive_Cert, SignatureType.Persona_Cert, SignatureType.Generic_Cert, SignatureType.Casual_Cert][(len(m.uids[t]['sigs']) + (m.clock // 60)) % 4]
+                u |= k.certify(u, level, usage={getattr(KeyFlags, f) for f in flags}, hashes=[HashAlgorithm.SHA512], primary=True, created=created)
                 m.uids[t]['sigs'].append(self.rec(flags, hashes, True, None, created))
             elif op == 'third_party':
                 if not live or not others:
